@@ -122,6 +122,16 @@ pub fn run(seed: u64, tier: &str, out: &mut Out) {
     // the documented switch points: 1.5 unit minus half of the next smaller unit
     for i in 0..5 { let u = UNITS_S[i] as u128 * 1_000_000_000; let nx = UNITS_S[i + 1] as u128 * 1_000_000_000; for delta in [-1_000_000i128, 0, 1_000_000] { ds.push(((u + u / 2 - nx / 2) as i128 + delta) as u128); } }
     for _ in 0..nrand / 5 { let bits = 12 + rng.below(40); ds.push((rng.next() >> bits) as u128); }
+    // the far end of the range: around 2^64 ms, 2^64 us, powers of two of years, Duration::MAX (kept a quarter
+    // unit away from the rounding boundaries, where the f64 quotient of the code and the exact one could differ)
+    {
+        let year = 365u128 * 86400 * 1_000_000_000;
+        ds.push(u64::MAX as u128 * 1_000_000_000 + 999_999_999);
+        for k in [1u128 << 64, (1u128 << 64) * 1000, (1u128 << 64) * 1_000_000] { for m in [k / 2, k - year, k, k + year, 2 * k, 3 * k] { ds.push((m / year) * year + year / 4); } }
+        for e in 20..40 { ds.push((1u128 << e) * year + year / 4); }
+        for _ in 0..nrand / 20 { let y = rng.next() as u128 % 584_000_000_000; ds.push(y * year + year / 4); }
+        ds.retain(|d| *d <= u64::MAX as u128 * 1_000_000_000 + 999_999_999);
+    }
     let mut prev: Option<(u128, u128)> = None;
     ds.sort(); ds.dedup();
     for d in ds {
